@@ -20,7 +20,7 @@
                                  (current code: errors.Is(err, withStack{...}) can never succeed,
                                  the type is not comparable and has no Is method, so
                                  WithStack(WithStack(e)) wraps twice). *)
-Definition xslices_runs_fixed : bool := false.
-Definition xslices_chunk_guard : bool := false.
-Definition xslices_chunk_no_overflow : bool := false.
-Definition xerrors_withstack_idempotent : bool := false.
+Definition xslices_runs_fixed : bool := true.
+Definition xslices_chunk_guard : bool := true.
+Definition xslices_chunk_no_overflow : bool := true.
+Definition xerrors_withstack_idempotent : bool := true.
